@@ -1063,3 +1063,46 @@ func init() {
 		return nil
 	}
 }
+
+func init() {
+	// TrimSpace over possibly-symbolic bytes (ASCII bound stated for symbolic bytes)
+	isSpace := func(r *run, b *Term) bool {
+		if b.IsConst() {
+			switch b.Val {
+			case ' ', '\t', '\n', '\v', '\f', '\r', 0x85, 0xA0:
+				return b.Val < 0x80 || false
+			}
+			return false
+		}
+		r.assume(bvCmp("bvult", b, mkBV(8, 0x80)))
+		r.note("TrimSpace over symbolic bytes assumes ASCII")
+		c := mkOr(mkEq(b, mkBV(8, ' ')), mkAnd(bvCmp("bvuge", b, mkBV(8, 9)), bvCmp("bvule", b, mkBV(8, 13))))
+		return r.branch(c)
+	}
+	trim := func(r *run, b []*Term) (int, int) {
+		lo, hi := 0, len(b)
+		for lo < hi && isSpace(r, b[lo]) {
+			lo++
+		}
+		for hi > lo && isSpace(r, b[hi-1]) {
+			hi--
+		}
+		return lo, hi
+	}
+	intrinsics["strings.TrimSpace"] = func(fr *frame, args []value) value {
+		s := args[0].(sval)
+		if c, ok := s.concrete(); ok {
+			return mkStr(strings.TrimSpace(c))
+		}
+		lo, hi := trim(fr.r, s.bytes())
+		return s.sub(lo, hi)
+	}
+	intrinsics["bytes.TrimSpace"] = func(fr *frame, args []value) value {
+		sl := args[0].([]value)
+		lo, hi := trim(fr.r, bytesOf(sl))
+		if lo == hi {
+			return []value(nil)
+		}
+		return sl[lo:hi]
+	}
+}
